@@ -112,7 +112,7 @@ def run_units(units, timeout_ms=None, procs=None):
             jobs.append((u.name, (k, u.shards), timeout_ms))
         _REG[u.name] = u
     procs = procs or min(16, max(1, len(jobs)))
-    raw = _schedule(jobs, procs, int(os.environ.get('VERIF_UNIT_WALL_S', '0')) or (900 if (timeout_ms or 0) < 30000 else 3600))
+    raw = _schedule(jobs, procs, int(os.environ.get('VERIF_UNIT_WALL_S', '0')) or (3600 if (timeout_ms or 0) < 30000 else 4 * 3600))
     by = {}
     for name, shard, res in raw:
         by.setdefault(name, []).append(res)
